@@ -20,7 +20,9 @@ EPS = 2.0 ** -52
 VALS = [0, 1, -1, 2, 0.5, 0.1, 1e8 + 1, 1e8 + 2]
 # magnitudes at which squares under/overflow: only totality is demanded
 EXTREME = [1e-170, 2e-170, 3e-170, 2.0 ** 53 + 2, 2.0 ** 53 + 4, 1e150,
-           -1e150, 1e300, -1e300, 1e308]
+           -1e150, 1e300, -1e300, 1e308,
+           # tiny: cubes and squares of the deviations underflow to zero
+           0.0, 1e-110, 3e-162, 5e-324]
 # (the last three: positive, but 1 - alpha/2 rounds to one)
 ALPHAS = [0.0, 0.05, 0.5, 1.0, 1e-15, 1e-16, 1e-300, 5e-324]
 
